@@ -179,6 +179,12 @@ def defaults_family():
     fam.append(('defaults-collections', spec_c,
                 lambda b: [[b.classes['K'](1, l, dd, s, n)] for l in (None, [], [1]) for dd in (None, {}, {'a': 1})
                            for s, n in ((None, None), ('', 0), ('x', 1))]))
+    # a defaulted _yatiml_extra declared BEFORE other defaulted parameters, with default-value sweetening
+    spec_e = {'classes': BASE + [_K([('x', 'int'), ('y', 'int', 3), ('z', 'int', 0), ('w', 'str', 'd')], extra='opt', extra_pos=1,
+                                    hooks={'sweeten': [('remove_defaults',)]})], 'root': ('list', ('cls', 'K'))}
+    fam.append(('defaults-extra-first', spec_e,
+                lambda b: [[b.classes['K'](1, collections.OrderedDict(), y, z, w)] for y in (3, 0, 5) for z in (0, 3, 5) for w in ('d', '3', 'x')] +
+                          [[b.classes['K'](1, collections.OrderedDict([('q', 1)]), 0, 3, 'd')]]))
     fam.append(('defaults-override', spec, lambda b: [b.classes['K'](1, l, e) for l in (None, [1]) for e in (None, list(b.classes['E'])[0])]))
     return fam
 
